@@ -17,6 +17,13 @@ from vfw.runner import CaseResult
 PROPERTY = 'C03'
 LEVEL = 'exploration'
 RULE = (
+    "Restart tier: transfers in every state x direction x progress situation (one per case, enumerated; 2..6 per case "
+    "sampled) are stored through a real TransferShelveCache by one TransferManager and loaded by a fresh one "
+    "(load_data), with a recording TransferStateListener attached from a TransferAddedEvent listener and the manager's "
+    "own listener observed; every (old,new) announced while loading must be a pinned edge and the loaded state must be "
+    "the repair read_cache makes on HEAD (INITIALIZING -> QUEUED, DOWNLOADING/UPLOADING -> COMPLETE if all bytes were "
+    "transfered else INCOMPLETE, times reset, every other state kept; remotely_queued cleared); non-trivial if the "
+    "stored state needs repair. Operation tier: "
     "Case = start state (10) x direction x local-file situation (none / file on disk / path without file / path is a "
     "directory so that os.remove really raises IsADirectoryError / file on disk whose removal raises PermissionError or "
     "OSError(EBUSY), injected in the executor job; all 9^2 depth-2 sequences per start state are enumerated for each "
@@ -59,6 +66,8 @@ RULE = (
     "operation."
 )
 ASSUMPTIONS = [
+    "restart tier: the state repair of TransferManager.read_cache is pinned from HEAD (it maps an interrupted upload "
+    "to INCOMPLETE as well, silently, before the transfer is added); persistence of the other fields is C17's subject",
     "asyncio.Lock is FIFO and every entry point (state method wrapper, TransferManager.abort/queue/pause) reaches "
     "Lock.acquire without yielding, so the observed acquisition order is the order in which the case starts the "
     "operations (the order is observed, not assumed, by the instrumented lock)",
@@ -408,6 +417,9 @@ def _settings():
 
 def run_case(case) -> CaseResult:
     res = CaseResult()
+    if isinstance(case, dict) and case.get('restart'):
+        _run_restart(case, res)
+        return res
     c = normalise(case)
     if c is None or not c.ops:
         return res
@@ -749,6 +761,141 @@ def _run(c, res, tmpdir):
 
     (final, end_flags), loop_errors = simloop.run_case_on_loop(main, max_iterations=200_000)
     _evaluate(c, res, init, recs, notes, notes_last, final, end_flags, loop_errors, truth, nested)
+
+
+# ---------------------------------------------------------------------------
+# restart tier: transfers stored by one TransferManager are loaded by a fresh one
+
+# what TransferManager.read_cache documents / does on HEAD with a stored state (pinned): a transfer that was being
+# negotiated goes back to the queue, one that was transferring becomes COMPLETE when all bytes were transfered and
+# INCOMPLETE otherwise (uploads too), every other state is kept
+def repaired_state(stored, filesize, bytes_transfered):
+    if stored == 'INITIALIZING':
+        return 'QUEUED'
+    if stored in TRANSFERRING:
+        return 'COMPLETE' if filesize == bytes_transfered else 'INCOMPLETE'
+    return stored
+
+
+def _run_restart(case, res):
+    from aioslsk.events import EventBus, TransferAddedEvent
+    from aioslsk.transfer.cache import TransferShelveCache
+    from aioslsk.transfer.manager import TransferManager
+    from aioslsk.transfer.model import Transfer, TransferDirection
+    from aioslsk.transfer.state import TransferState
+
+    items = []
+    raw_items = case.get('items')
+    for raw in (raw_items if isinstance(raw_items, list) else [])[:8]:
+        if not isinstance(raw, dict):
+            continue
+        state = STATES[_int(raw.get('state', 0), 0, 10 ** 6) % len(STATES)]
+        download = bool(_int(raw.get('dir', 0), 0, 10 ** 6) % 2)
+        if state == 'DOWNLOADING' and not download:
+            state = 'UPLOADING'
+        elif state == 'UPLOADING' and download:
+            state = 'DOWNLOADING'
+        prog = raw.get('prog')
+        if prog is not None:
+            prog = _int(prog, 0, 10 ** 6) % (len(FILESIZES) * len(BYTES_KINDS))
+        started = bool(raw.get('started', True)) or state in TRANSFERRING or state == 'COMPLETE'
+        items.append(types.SimpleNamespace(state=state, download=download, prog=prog, file=0, rq=True,
+                                           started=started and state != 'VIRGIN'))
+    if not items:
+        return
+    tmpdir = tempfile.mkdtemp(prefix='c03-restart-')
+    seen = {}          # remote path -> [(who, old, new)]
+    loaded = {}
+
+    def stub():
+        return types.SimpleNamespace()
+
+    async def main(loop):
+        writer = TransferManager(_settings(), EventBus(), stub(), stub(), stub(), cache=TransferShelveCache(tmpdir))
+        for idx, item in enumerate(items):
+            t = Transfer('peer%d' % idx, '@@abc\\dir\\file%d.bin' % idx,
+                         TransferDirection.DOWNLOAD if item.download else TransferDirection.UPLOAD)
+            init = initial_fields(item, None)
+            item.init = init
+            t.state = TransferState.init_from_state(getattr(TransferState.State, item.state), t)
+            for f in ('fail_reason', 'abort_reason', 'remotely_queued', 'filesize', 'bytes_transfered',
+                      'place_in_queue', 'queue_attempts', 'upload_request_attempts', 'start_time', 'complete_time'):
+                setattr(t, f, init[f])
+            await writer.add(t)
+        writer.write_cache()
+
+        # the fresh client: a listener attaches a recording state listener to every transfer that is announced
+        bus = EventBus()
+        reader = TransferManager(_settings(), bus, stub(), stub(), stub(), cache=TransferShelveCache(tmpdir))
+
+        class Recorder:
+            async def on_transfer_state_changed(self, transfer, old, new):
+                seen.setdefault(transfer.remote_path, []).append(('listener', old.name, new.name))
+
+        recorder = Recorder()
+
+        async def on_added(event):
+            event.transfer.state_listeners.append(recorder)
+
+        bus.register(TransferAddedEvent, on_added)
+        manager_notified = reader.on_transfer_state_changed
+
+        async def observed_manager_listener(transfer, old, new):
+            seen.setdefault(transfer.remote_path, []).append(('manager', old.name, new.name))
+            return await manager_notified(transfer, old, new)
+
+        reader.on_transfer_state_changed = observed_manager_listener
+        await reader.load_data()
+        await simloop.step(3)
+        for t in reader.transfers:
+            loaded[t.remote_path] = {'state': t.state.VALUE.name, 'remotely_queued': t.remotely_queued,
+                                     'start_time': t.start_time, 'complete_time': t.complete_time,
+                                     'filesize': t.filesize, 'bytes_transfered': t.bytes_transfered,
+                                     'listeners': len(t.state_listeners)}
+        return len(reader.transfers)
+
+    try:
+        count, loop_errors = simloop.run_case_on_loop(main, max_iterations=200_000)
+    finally:
+        shutil.rmtree(tmpdir, ignore_errors=True)
+
+    res.label('restart', 'restart:transfers=%d' % len(items))
+    if count != len(items):
+        res.violate('C03/restart:transfer-count', f'{len(items)} transfers stored, {count} loaded')
+    for idx, item in enumerate(items):
+        path = '@@abc\\dir\\file%d.bin' % idx
+        what = (f"{'download' if item.download else 'upload'} stored as {item.state} with filesize="
+                f"{item.init['filesize']} bytes_transfered={item.init['bytes_transfered']}")
+        res.label('restart:stored=' + item.state)
+        want = repaired_state(item.state, item.init['filesize'], item.init['bytes_transfered'])
+        if want != item.state:
+            res.nontrivial = True
+            res.label(f'restart:repair:{item.state}->{want}')
+        for who, a, b in seen.get(path, []):
+            res.label(f'restart:announced:{a}->{b}')
+            if b not in EDGES.get(a, ()):
+                res.violate(f'C03/restart:illegal-edge:{a}->{b}',
+                            f'while the cache was loaded the {who} was told {a}->{b} which is not an edge of the '
+                            f'documented graph ({what}); all notifications: {seen.get(path)}')
+        got = loaded.get(path)
+        if got is None:
+            res.violate('C03/restart:transfer-missing', f'{what} was not loaded; loaded: {sorted(loaded)}')
+            continue
+        if got['state'] != want:
+            res.violate(f'C03/restart:loaded-state:{item.state}->{got["state"]}',
+                        f'{what} was loaded as {got["state"]}, read_cache documents {want}')
+        elif got['remotely_queued']:
+            res.violate('C03/restart:remotely-queued-kept', what)
+        elif item.state in TRANSFERRING and (got['start_time'] is not None or got['complete_time'] is not None):
+            res.violate('C03/restart:times-kept', f'{what}: {got}')
+        notes_seen = seen.get(path, [])
+        if notes_seen:
+            last = notes_seen[-1][2]
+            if last != got['state']:
+                res.violate('C03/restart:last-notification-is-not-the-state',
+                            f'{what}: told {notes_seen}, state is {got["state"]}')
+    if loop_errors:
+        res.violate('C03/restart:loop-error', str(loop_errors[:2]))
 
 
 # ---------------------------------------------------------------------------
@@ -1153,6 +1300,23 @@ def enum_reentrant(gaps=(1,)):
                                         False, tasks=0, d=0, re=re_call, re_at=0)
 
 
+def enum_restart():
+    """One stored transfer per case: every state x direction x progress situation (+ the default one)."""
+    for s in range(len(STATES)):
+        for direction in (0, 1):
+            for prog in [None] + _ALL_PROGS:
+                yield {'restart': 1, 'items': [{'state': s, 'dir': direction, 'prog': prog, 'started': True}]}
+
+
+@st.composite
+def restart_strategy(draw):
+    items = draw(st.lists(st.fixed_dictionaries({
+        'state': st.integers(0, len(STATES) - 1), 'dir': st.integers(0, 1),
+        'prog': st.sampled_from([None] + list(range(len(FILESIZES) * len(BYTES_KINDS)))),
+        'started': st.booleans()}), min_size=2, max_size=6))
+    return {'restart': 1, 'items': items}
+
+
 def enum_pairs_in_task(gaps, configs):
     """Pairs in which one operation is issued by the transfer task itself (before or after the other)."""
     in_task = [OPS.index(nm) for nm in IN_TASK_OPS]
@@ -1254,6 +1418,8 @@ def _run_shard(ctx):
     state_entries = [(o, False) for o in range(len(OPS))]
     ctx.enumerate(enum_histories_depth3())
     ctx.enumerate(enum_histories_manager_depth2())
+    ctx.enumerate(enum_restart())
+    ctx.explore(restart_strategy(), 12 if quick else 300, salt=3)
     if quick:
         ctx.enumerate(enum_histories_progress(2, _ALL_PROGS))
         ctx.enumerate(enum_removal_failures(2))
